@@ -36,6 +36,9 @@ var permWords = []string{"", kwAnyone, kwUser, kwAdmin}
 func runHistories(w *world, j *judge, cs childSpec) error {
 	for n := 0; n < cs.N; n++ {
 		if err := runHistory(w, j, cs.Seed, cs.Shard, n); err != nil {
+			if isWedged(err) {
+				return err
+			}
 			if isInconclusive(err) {
 				j.b.Inconclusive("history %d/%d: %s", cs.Shard, n, err)
 				return nil // the world may be in an unknown state: stop this child
@@ -56,7 +59,9 @@ func runHistory(w *world, j *judge, seed uint64, shard, no int) error {
 	origins := originVariants()
 	steps := r.Range(60, 220)
 	step := 0
-	j.replay = func(sp *reqSpec) any { return historyReplay{Mode: "history", Seed: seed, Shard: shard, No: no, Step: step} }
+	j.replay = func(sp *reqSpec) any {
+		return historyReplay{Mode: "history", Seed: seed, Shard: shard, No: no, Step: step}
+	}
 	sig := []string{}
 	// every history starts from a defined world
 	if err := w.setDev(false); err != nil {
@@ -296,6 +301,7 @@ func runConcurrent(w *world, j *judge, cs childSpec) error {
 	clients := 8
 	perClient := cs.N / clients
 	stop := make(chan struct{})
+	wedged := make(chan struct{})
 	var bg sync.WaitGroup
 	var bgErr error
 	var bgMu sync.Mutex
@@ -317,10 +323,12 @@ func runConcurrent(w *world, j *judge, cs childSpec) error {
 				cur = listA
 			}
 			since := w.keyEvCount()
-			if err := config.SetConfigOption(api.CfgAPIKeys, cfgStrings(cur)); err != nil {
+			cfgNow := cfgStrings(cur)
+			if err := w.guarded("SetConfigOption(core/apiKeys)", func() error { return config.SetConfigOption(api.CfgAPIKeys, cfgNow) }); err != nil {
 				bgMu.Lock()
 				bgErr = err
 				bgMu.Unlock()
+				close(wedged)
 				return
 			}
 			if !w.awaitKeys(since, cfgStrings(cur)) {
@@ -388,7 +396,7 @@ func runConcurrent(w *world, j *judge, cs childSpec) error {
 		go func(c int) {
 			defer cw.Done()
 			rr := vlib.NewRand(cs.Seed, fmt.Sprintf("C12/concurrent/client/%d", cs.Shard), uint64(c))
-			jj := &judge{w: w, b: j.b, logLevel: j.logLevel}
+			jj := &judge{w: w, b: j.b, logLevel: j.logLevel, flapping: true}
 			jj.replay = func(sp *reqSpec) any {
 				return tableReplay{Mode: "concurrent", CredTag: "concurrent", Path: sp.Path, Method: sp.Method, ACRM: sp.ACRM, Origin: sp.Origin, Via: "handler", Auth: sp.Auth, Authz: sp.Authz, Cookie: sp.Cookie}
 			}
@@ -433,7 +441,16 @@ func runConcurrent(w *world, j *judge, cs childSpec) error {
 			}
 		}(c)
 	}
-	cw.Wait()
+	cdone := make(chan struct{})
+	go func() { cw.Wait(); close(cdone) }()
+	select {
+	case <-cdone:
+	case <-wedged:
+		// the configuration system stopped: clients may hang with it, do not wait for them
+		bgMu.Lock()
+		defer bgMu.Unlock()
+		return bgErr
+	}
 	close(stop)
 	bg.Wait()
 	w.b.Max("max_concurrent_requests", w.maxInflight.Load())
@@ -442,5 +459,185 @@ func runConcurrent(w *world, j *judge, cs childSpec) error {
 	if bgErr != nil {
 		return bgErr
 	}
+	return nil
+}
+
+// runChurn configures key lists that contain already expired keys over and over: every
+// such change makes portbase rewrite the option itself (clean-up microtask) while the
+// harness' own change may still be in flight — the history class in which configuration
+// changes overlap. After every awaited change a few requests check the table.
+func runChurn(w *world, j *judge, cs childSpec) error {
+	r := vlib.NewRand(cs.Seed, "C12/churn", uint64(cs.Shard))
+	targets := diagTargets()
+	// a second admin keeps changing an unrelated setting while the keys are reconfigured
+	stop := make(chan struct{})
+	noiseDone := make(chan error, 1)
+	go func() {
+		for n := int64(1); ; n++ {
+			select {
+			case <-stop:
+				noiseDone <- nil
+				return
+			default:
+			}
+			if err := w.guarded("SetConfigOption("+noiseOptionKey+")", func() error { return config.SetConfigOption(noiseOptionKey, n) }); err != nil {
+				noiseDone <- err
+				return
+			}
+			w.b.Count("churn_unrelated_changes", 1)
+			time.Sleep(time.Duration(1+n%7) * time.Millisecond)
+		}
+	}()
+	defer func() {
+		close(stop)
+		select {
+		case <-noiseDone:
+		case <-time.After(guardLimit + 30*time.Second):
+		}
+	}()
+	for i := 0; i < cs.N; i++ {
+		select {
+		case err := <-noiseDone:
+			noiseDone <- err
+			if err != nil {
+				return err
+			}
+		default:
+		}
+		now := time.Now()
+		var list []cfgKey
+		nValid := r.Range(1, 5)
+		for k := 0; k < nValid; k++ {
+			list = append(list, cfgKey{Key: "C" + randKey(r, r.Range(3, 18)), R: vlib.Pick(r, permWords...), W: vlib.Pick(r, permWords...), Tag: "churn"})
+		}
+		for k := 0; k < r.Range(1, 3); k++ {
+			list = append(list, cfgKey{Key: "X" + randKey(r, 12), R: kwAdmin, W: kwAdmin, HasExp: true,
+				Expires: now.Add(-time.Duration(r.Range(1, 100000)) * time.Second).Truncate(time.Second), Tag: "churn-expired"})
+		}
+		vlib.Shuffle(r, list)
+		if err := w.setKeys(list); err != nil {
+			return err
+		}
+		j.b.Count("churn_changes", 1)
+		for _, ck := range list {
+			t := vlib.Pick(r, targets...)
+			mv := methodVars[r.Intn(5)]
+			sp := &reqSpec{Via: "handler", Method: mv.Method, Host: testHost, Path: t.Path, Target: t.T, Authz: "Bearer " + ck.Key, CredTag: "churn/" + ck.Tag}
+			j.replay = func(s *reqSpec) any {
+				return tableReplay{Mode: "churn", CredTag: "churn", Path: s.Path, Method: s.Method, Via: "handler", Authz: s.Authz}
+			}
+			j.run(sp)
+		}
+	}
+	j.b.DistinctS(fmt.Sprintf("churn|%d|%d", cs.Seed, cs.Shard))
+	return nil
+}
+
+// runRevoke: the admin configures [A(admin), X(already expired)] and, at the moment the
+// api module has processed that change, replaces the list by [B(user)] — A is revoked.
+// portbase removes expired keys from the option by itself, asynchronously; after all of
+// that has settled the configuration the admin made last must be the one in force:
+// A grants nothing, B grants user access.
+func runRevoke(w *world, j *judge, cs childSpec) error {
+	r := vlib.NewRand(cs.Seed, "C12/revoke", uint64(cs.Shard))
+	adminT := target{"/verif/p/3/3", mTarget{"plain", mAdmin, mAdmin}}
+	userT := target{"/verif/p/2/2", mTarget{"plain", mUser, mUser}}
+	for i := 0; i < cs.N; i++ {
+		a := cfgKey{Key: "A" + randKey(r, 14), R: kwAdmin, W: kwAdmin, Tag: "revoked"}
+		b := cfgKey{Key: "B" + randKey(r, 14), R: kwUser, W: kwUser, Tag: "current"}
+		x := cfgKey{Key: "X" + randKey(r, 14), R: kwAdmin, W: kwAdmin, HasExp: true, Expires: time.Now().Add(-time.Duration(r.Range(2, 5000)) * time.Second).Truncate(time.Second), Tag: "expired"}
+		l1, l2 := []cfgKey{a, x}, []cfgKey{b}
+		if r.Bool() {
+			l1 = []cfgKey{x, a}
+		}
+		fired := make(chan error, 1)
+		armed := true
+		w.keyEvMu.Lock()
+		w.onKeyEv = func(idx int, snap string, dirty bool) {
+			if armed && dirty && strings.Contains(snap, a.Key) {
+				armed = false
+				fired <- config.SetConfigOption(api.CfgAPIKeys, cfgStrings(l2))
+			}
+		}
+		w.keyEvMu.Unlock()
+		since := w.keyEvCount()
+		err := w.guarded("SetConfigOption(core/apiKeys)", func() error { return config.SetConfigOption(api.CfgAPIKeys, cfgStrings(l1)) })
+		if err != nil {
+			return err
+		}
+		select {
+		case err := <-fired:
+			if err != nil {
+				return fmt.Errorf("revoke: second SetConfigOption: %w", err)
+			}
+		case <-time.After(60 * time.Second):
+			return errInconclusive("revoke: the update that sees the first key list did not happen within 60s")
+		}
+		w.keyEvMu.Lock()
+		w.onKeyEv = nil
+		w.keyEvMu.Unlock()
+		// settle: the second change's own update must have happened; then every clean-up that
+		// was scheduled gets the chance to be applied — one update per update that saw an
+		// expired key — or, if a clean-up (rightly) does nothing, a bounded grace period. The
+		// period only affects how likely a stale write-back is seen, never the verdict.
+		deadline := time.Now().Add(60 * time.Second)
+		grace := time.Time{}
+		for {
+			w.keyEvMu.Lock()
+			dirty, clean := 0, 0
+			for k := since; k < len(w.keyEvs); k++ {
+				if w.keyDirty[k] {
+					dirty++
+				} else {
+					clean++
+				}
+			}
+			w.keyEvMu.Unlock()
+			if clean >= dirty+1 {
+				break
+			}
+			if clean >= 1 && grace.IsZero() {
+				grace = time.Now().Add(4 * time.Second)
+			}
+			if !grace.IsZero() && time.Now().After(grace) {
+				break
+			}
+			if time.Now().After(deadline) {
+				return errInconclusive("revoke: configuration did not settle within 60s; " + w.keyEvDiag(since, cfgStrings(l1), cfgStrings(l2)))
+			}
+			time.Sleep(20 * time.Millisecond)
+		}
+		w.configured = l2
+		w.model.setKeys(l2)
+		w.b.Count("key_updates_awaited", 1)
+		w.b.Count("revoke_rounds", 1)
+		actual := w.keysGetSafe()
+		for _, c := range []struct {
+			k   cfgKey
+			t   target
+			sig string
+		}{{a, adminT, "C12:revoked-key-still-grants"}, {b, userT, "C12:configured-key-ignored"}} {
+			sp := &reqSpec{Via: "handler", Method: vlib.Pick(r, "GET", "POST"), Host: testHost, Path: c.t.Path, Target: c.t.T, Authz: "Bearer " + c.k.Key, CredTag: "revoke/" + c.k.Tag}
+			e := w.model.expect(sp, time.Now())
+			o := w.do(sp)
+			j.b.Eval(1)
+			j.b.Count("revoke_requests", 1)
+			bad := (o.Invoked > 0 && e.Invoke == triMustNot) || (o.Invoked == 0 && e.Invoke == triMust)
+			if bad {
+				cause, expl := ":option-intact", "the option holds the last configuration, the api module's key table does not follow it"
+				if strings.Join(actual, "\n") != strings.Join(cfgStrings(l2), "\n") {
+					cause, expl = ":option-overwritten", "a clean-up of expired keys wrote back the list it had computed from the older configuration"
+				}
+				j.b.Violation(c.sig+cause, fmt.Sprintf("after the admin replaced the key list %v by %v (both SetConfigOption calls succeeded, portbase's own clean-ups settled) key %q (%s) %s; the option now holds %v: %s",
+					cfgStrings(l1), cfgStrings(l2), c.k.Key, c.k.Tag, map[bool]string{true: "still runs the Admin-only handler", false: "is refused"}[o.Invoked > 0], actual, expl),
+					cell{Spec: sp, World: j.brief(), Expect: e, Obs: o, Replay: tableReplay{Mode: "revoke", CredTag: "revoke"}, Recent: []string{w.keyEvDiag(since, cfgStrings(l1), cfgStrings(l2))}})
+			}
+		}
+		// bring the world back to what the model believes before the next round
+		if err := w.setKeys(nil); err != nil {
+			return err
+		}
+	}
+	j.b.DistinctS(fmt.Sprintf("revoke|%d|%d", cs.Seed, cs.Shard))
 	return nil
 }
